@@ -54,6 +54,9 @@ def _run(ix, R):
             if k not in st or not (fl.tab.equal(st[k].value, w) or
                                    (k in alt and fl.tab.equal(st[k].value, alt[k]))):
                 why.append('%s = %s' % (k, fmt(fl, st[k].value) if k in st else None))
+        for k, e in st.items():
+            if e.guards or e.loops:
+                why.append('%s is set conditionally' % k)
         order = [k for k in st]
         if order.index('self._scale') < max(order.index('self._low_bounds'), order.index('self._up_bounds')):
             why.append('scale computed before the bounds')
@@ -82,7 +85,7 @@ def _run(ix, R):
             fl = mkflow(ix, site)
             pe = param_env(fl, f, ['x']) if len(f.params()) > 1 else {}
             r = one(fl.of('return'), 'return')
-            R.check('1.%s.%s' % (cls, fn), 'ALG', site, stmt, fl.tab.equal(r.value, spec(fl, want, pe)),
+            R.check('1.%s.%s' % (cls, fn), 'ALG', site, stmt, fl.tab.equal(r.value, spec(fl, want, pe)) and not r.guards,
                     key='returns %s' % fmt(fl, r.value), detail='returns %s' % fmt(fl, r.value), loc=f.loc(r.node))
     site = PR + '::Gaussian.__init__'
     with R.guard('1.gauss.init', 'ALG', site, 'gaussian parameters'):
@@ -91,7 +94,8 @@ def _run(ix, R):
         pe = param_env(fl, f, ['mean', 'std'])
         st = stores(fl)
         ok = '%s' % fmt(fl, st['self._loc'].value) == fmt(fl, pe['mean']) and \
-            fl.tab.equal(st['self._scale'].value, pe['std'])
+            fl.tab.equal(st['self._scale'].value, pe['std']) and \
+            not any(e.guards or e.loops for e in (st['self._loc'], st['self._scale']))
         R.check('1.gauss.init', 'ALG', site, 'loc = mean, scale = std', ok,
                 key='loc %s scale %s' % (fmt(fl, st['self._loc'].value), fmt(fl, st['self._scale'].value)),
                 detail='loc %s scale %s' % (fmt(fl, st['self._loc'].value), fmt(fl, st['self._scale'].value)),
@@ -106,6 +110,8 @@ def _run(ix, R):
         why = []
         for r in rets:
             g = r.guards[-1]
+            if len([x for x in r.guards if not x.early]) > 1 or len(r.guards) > 2:
+                why.append('return under %s' % [x.text() for x in r.guards])
             lin = fl.tab.equal(g.rf, spec(fl, 'self._prior_mode is PriorMode.LINEAR')) == g.positive
             islog = fl.tab.equal(g.rf, spec(fl, 'self._prior_mode is PriorMode.LOG')) and g.positive
             if fl.tab.equal(g.rf, spec(fl, 'self._prior_mode is PriorMode.LOG')):
@@ -123,7 +129,8 @@ def _run(ix, R):
         fl = mkflow(ix, site)
         st = stores(fl)
         R.check('2.base', 'DOM', site, 'the base constructor sets LINEAR mode',
-                'self._prior_mode' in st and fmt(fl, st['self._prior_mode'].value) == 'PriorMode.LINEAR',
+                'self._prior_mode' in st and fmt(fl, st['self._prior_mode'].value) == 'PriorMode.LINEAR' and
+                not st['self._prior_mode'].guards,
                 key='mode %s' % (fmt(fl, st['self._prior_mode'].value) if 'self._prior_mode' in st else None),
                 detail='base mode store', loc=f.loc())
     # ---- log variants
